@@ -332,7 +332,8 @@ def r3(ctx):
         raise AnalysisError(f"C08.R3: the sparse dummy encoder cannot be summarised: {e}")
     LV = ["list(levels or pandas.Categorical(series, levels).categories)", "list(levels or pandas.Categorical(series, categories=levels).categories)",
           "list(levels) if levels else list(pandas.Categorical(series, levels).categories)"]
-    full = [o for o in souts if any(pol and norm(c) in LV for c, pol in o.conds) and any(not pol and norm(c) == "drop_first" for c, pol in o.conds)]
+    LVE = [f"len({x}) == 0" for x in LV]
+    full = [o for o in souts if any((pol and norm(c) in LV) or (not pol and norm(c) in LVE) for c, pol in o.conds) and any(not pol and norm(c) == "drop_first" for c, pol in o.conds)]
     ok, why = bool(full), "no returning path for a non-empty level list without drop_first"
     for o in full:
         b_ = sym.pm("(ANY_lv, spsparse.csc_matrix((numpy.ones(ANY_c.shape[0], dtype=float), (ANY_i, ANY_c)), shape=(ANY_s.shape[0], len(ANY_lv))))", o.value)
